@@ -8,6 +8,9 @@
                            self.command = None; _maybe_issue_command()
      connectionLost:       outstanding = [command] + commands; both cleared; for each: if not d.called: errback
      when_disconnected:    SingleObserver.when_fired - a fresh Deferred, fired at once when the loss has happened
+     reply + hang-up:      the callback the caller attached to the in-flight command's Deferred calls
+                           transport.loseConnection() and the transport reports the loss synchronously:
+                           connectionLost runs inside self.defer.callback(resp), self.command still set
      connectionLost:       FIRST _when_disconnected.fire(failure) - the callbacks of the observers run, and may
                            ask again or submit commands -, THEN the outstanding list is taken
    The Deferreds of distinct commands are distinct objects, so the loop's `d.called` tests are the flags
@@ -60,6 +63,26 @@ Definition run_cb (acc : mq * list qev) (wb : N * wbeh) : mq * list qev :=
   | WSubmit => let '(s2, e2) := submit s in (s2, ev ++ [QNote (fst wb)] ++ e2)
   end.
 
+(* a whole reply for the command c in flight: self.defer.callback(resp); self.command = None; _maybe_issue_command() *)
+Definition m_reply (s : mq) (c : N) : mq * list qev :=
+  let e1 := if memN c (m_called s) then [] else [QRes c QOk] in
+  let '(s2, e2) := maybe_issue {| m_cur := None; m_q := m_q s; m_called := c :: m_called s;
+                                  m_lost := false; m_next := m_next s;
+                                  m_obs := m_obs s; m_nobs := m_nobs s |} in
+  (s2, e1 ++ e2).
+
+(* connectionLost: _when_disconnected.fire - the stored value first, then every observer in order -, then the
+   outstanding list is taken, both fields cleared, and every Deferred not called yet is errback'ed *)
+Definition m_lose (s : mq) : mq * list qev :=
+  let '(s1, ev) := fold_left run_cb (m_obs s)
+                     ({| m_cur := m_cur s; m_q := m_q s; m_called := m_called s; m_lost := true;
+                         m_next := m_next s; m_obs := []; m_nobs := m_nobs s |}, []) in
+  let outstanding := (match m_cur s1 with Some c => [c] | None => [] end) ++ m_q s1 in
+  let out := filter (fun k => negb (memN k (m_called s1))) outstanding in
+  ({| m_cur := None; m_q := []; m_called := out ++ m_called s1; m_lost := true; m_next := m_next s1;
+      m_obs := []; m_nobs := m_nobs s1 |},
+   ev ++ map (fun k => QRes k QDisc) out).
+
 Definition m_step (s : mq) (o : qop) : option (mq * list qev) :=
   match o with
   | QSubmit => Some (submit s)
@@ -72,12 +95,7 @@ Definition m_step (s : mq) (o : qop) : option (mq * list qev) :=
       if m_lost s then None else
       match m_cur s with
       | None => None
-      | Some c =>
-          let e1 := if memN c (m_called s) then [] else [QRes c QOk] in
-          let '(s2, e2) := maybe_issue {| m_cur := None; m_q := m_q s; m_called := c :: m_called s;
-                                          m_lost := false; m_next := m_next s;
-                                          m_obs := m_obs s; m_nobs := m_nobs s |} in
-          Some (s2, e1 ++ e2)
+      | Some c => Some (m_reply s c)
       end
   | QWatch b =>
       if m_lost s then
@@ -87,16 +105,23 @@ Definition m_step (s : mq) (o : qop) : option (mq * list qev) :=
         Some ({| m_cur := m_cur s; m_q := m_q s; m_called := m_called s; m_lost := false; m_next := m_next s;
                  m_obs := m_obs s ++ [(m_nobs s, b)]; m_nobs := m_nobs s + 1 |}, [])
   | QLose =>
+      if m_lost s then None else Some (m_lose s)
+  | QReplyLose =>
       if m_lost s then None else
-      (* _when_disconnected.fire: the stored value first, then every observer in order *)
-      let '(s1, ev) := fold_left run_cb (m_obs s)
-                         ({| m_cur := m_cur s; m_q := m_q s; m_called := m_called s; m_lost := true;
-                             m_next := m_next s; m_obs := []; m_nobs := m_nobs s |}, []) in
-      let outstanding := (match m_cur s1 with Some c => [c] | None => [] end) ++ m_q s1 in
-      let out := filter (fun k => negb (memN k (m_called s1))) outstanding in
-      Some ({| m_cur := None; m_q := []; m_called := out ++ m_called s1; m_lost := true; m_next := m_next s1;
-               m_obs := []; m_nobs := m_nobs s1 |},
-            ev ++ map (fun k => QRes k QDisc) out)
+      match m_cur s with
+      | None => None
+      | Some c =>
+          (* d was cancelled: Twisted suppresses d.callback(resp), no callback runs, nobody hangs up *)
+          if memN c (m_called s) then Some (m_reply s c) else
+          (* self.defer.callback(resp): d is called, the caller's callback runs and hangs up; the transport
+             calls connectionLost at once, self.command still naming c: the observers' callbacks see a command
+             in flight (a submission is queued), outstanding = [c] ++ queue, c is called and skipped, the rest
+             fails in order.  Back in _broadcast_response: self.command = None; _maybe_issue_command() finds
+             the queue empty (connectionLost has cleared both already) *)
+          let '(s2, ev) := m_lose {| m_cur := Some c; m_q := m_q s; m_called := c :: m_called s; m_lost := false;
+                                     m_next := m_next s; m_obs := m_obs s; m_nobs := m_nobs s |} in
+          Some (s2, QRes c QOk :: ev)
+      end
   end.
 
 Fixpoint m_run (s : mq) (ops : list qop) : option (list (list qev)) :=
